@@ -9,6 +9,7 @@ git apply $S/patch.diff || { echo "PATCH DOES NOT APPLY"; exit 8; }
 PYTHONPATH=/repo /venv/bin/python $S/demo.py >/tmp/demo_patched.log 2>&1; echo "demo on patched tree: exit $? ($(tail -1 /tmp/demo_patched.log | cut -c1-150))"
 cd /verif && ./check $P --tier quick 2>&1 | grep -E "^VIOLATION|KNOWN|done:|MACHINERY" | head -6
 git -C /repo checkout -- .
+(cd /verif && ./check $P --tier quick >/dev/null 2>&1; echo "evidence restored on the clean tree: rc=$?")
 git -C /repo status --short | head -3
 if [ -n "$WT" ]; then
   git -C $WT checkout -q --detach $(git -C /repo rev-parse HEAD) && git -C $WT apply $S/patch.diff && /verif/tools/baseline.sh $WT
